@@ -276,7 +276,7 @@ impl Part for C13 {
                 let (enc, _) = match r1_setup_s(c.suite, &m, &k.pk_r, &info, &k.ikm_e) {
                     Some(x) => x,
                     None => {
-                        out.fail("R1 setup failed");
+                        out.fail_machinery("R1 setup failed");
                         return out;
                     }
                 };
